@@ -127,6 +127,13 @@ def run(ctx):
     from .c04 import rule_absolute_indices
     rule_absolute_indices(ctx, mir, rid="R06.8")
 
+    # ------------------------------------------------------------------ R06.11 (shared with C03 R03.1 / R03.5)
+    # both state machines run the same table; a wrong transition (e.g. text state after `/>`) shows up differently in the two modes
+    from .c03 import rule_product
+    from ..smgraph import Graph as _G6, automaton as _a6
+    _aut6 = _a6()
+    rule_product(ctx, _G6(_aut6), _aut6, rid="R06.11")
+
     ctx.not_decided += ["equality of event logs under handler sets H and H ∪ O as such (relation between two runs)"]
     return ("Rules on the hand-over between the tag scanner and the lexer: type-driven bookmark completeness, reset of sticky per-tag scratch on "
             "every continuing exit of finish_tag_name (CFG dominance), the stale-hint-flag protocol and once-per-tag tree-builder feedback.")
